@@ -6,6 +6,10 @@ ALL = ["C%02d" % i for i in range(1, 21)]
 
 CODEC_NOTE = "Trusted: the reflection bridge (identity-checked on every case), the schema universe and alphabets, the reference codecs, the Go toolchain. Schemas enter as the generator's intermediate JSON (the Java parser is absent). Small-scope bounds: depth <= 2 (3 on spines), <= 5 entries, strings <= 2 chars over the metacharacter set + tokens."
 CHECKS = {
+ "C04": dict(engine="enumx", category="model_checking", design="§3 C04",
+   technique="exhaustive enumeration of hostile inputs (all short strings over the ROR2 delimiter alphabet, all short JSON token sequences, all single edits of valid encodings, small untyped value trees) x every reading program, executed on the real readers and generated unmarshalers; oracle = returns, no panic, no hang",
+   text="Every ROR2 string of <=6 (thorough 7) symbols over {( ) , : ' a % List( 1} through NewRor2Reader, as a query-parameter value and as a whole query string; every JSON token sequence of <=5 (6) tokens; every truncation and single-byte deletion/substitution/insertion of the reference encodings (json, header, query) of two values of every wrapper record; and ~10^4 untyped Go value trees are run through 19 hand-written reading programs plus generated unmarshalers in both generations. Any panic (identified by its site in the library) or hang is a violation.",
+   note=CODEC_NOTE + " Guided/random mutation beyond these bounds is not done (sampling). HTTP-level robustness is added by the wire harness."),
  "C06": dict(engine="enumx", category="model_checking", design="§3 C06",
    technique="bounded-exhaustive enumeration of deletion / null subsets of record-field positions x key orders x injected unknown fields x 4 reader kinds on generated bindings, against an independently computed missing-path set",
    text="For every schema with nested records (records inside arrays, maps, unions, includes; plus flat representatives) the fully populated value is encoded by the reference encoders with every subset of field positions removed (all 2^n for n<=8, every subset of size<=3 beyond; deeper in thorough), also as JSON null, in three key orders and with unknown primitive/object/array fields at three positions, then decoded by the JSON, ROR2, query-parameter and untyped-value readers of both generations. The single MissingRequiredFieldsError must list exactly the sorted full paths of the absent required fields, nothing when none is missing, and the returned value must hold every present field; malformed leaves must raise a DeserializationError scoped at the leaf.",
